@@ -14,6 +14,16 @@
   constructor admits are one and the same for every hierarchy and both defaults (`stub_kw_iff`, `stub_sigkw_agree`,
   `sig_kwargs_iff_admitted`); names and default-iff-not-required agree for every hierarchy (`stub_names_agree`,
   `stub_required_agree`).  The former counterexamples are kept as kernel-evaluated `fixed_*` examples.
+  Layers of this file:
+    1. parameters over tree-shaped hierarchies (Sem/Stub.lean; induction over the whole hierarchy): names, defaults,
+       the `**` clause, helper methods, ordering, imports — `C16_statement_holds`;
+    2. the TEXT (Sem/StubText.lean): annotation AST, token sequences of every generated header, the recogniser
+       `parseDef` of Python's `def` header subset, the lexer `lexPy`: `stub_init_text_parses`, `stub_helper_text_parses`,
+       `stub_method_text_roundtrip`, `lex_render_roundtrip`, `stub_*_text_accepted`, `stub_*_dupfree_iff`, `type_info_wf`;
+    3. both sides as models of code (Sem/StubDefine.lean over Sem/Define.lean's class objects, any hierarchy shape):
+       `stubD_*`, `diamond_names_counterexample` (open finding "names-mismatch:constant-shadowed-in-diamond").
+  Open findings with a kernel-checked instance here: "uncompilable-stub:parameter-name-clash"
+  (`name_clash_counterexample`, exact region `stub_helper_dupfree_iff`), "names-mismatch:constant-shadowed-in-diamond".
   History: until /repo commit 08ea09e a *required* `AnyOf[X, None]` field was rendered `Optional[X] = None`
   (finding "required-optional-default", fixed); `required_optional_fixed_example` is the former counterexample.
 -/
